@@ -54,12 +54,16 @@ func (fr *Frame) execFloatOp(x *ssa.BinOp, a, b Val, reach string, h Heap) {
 		}
 		fr.setVal(x, fr.rounded(app("*", a.T, b.T), "fmul"))
 	case token.QUO:
-		if _, lit := parseLit(strings.TrimSuffix(b.T, ".0")); !lit {
-			// IEEE division by zero yields Inf/NaN, not a panic; the real model needs a non-zero divisor
-			u.oblig("float-div", "float divisor is not zero (the real-arithmetic model has no Inf/NaN)", implies(reach, not(eq(b.T, "0.0"))), nil)
-		}
 		if isPow2Real(b.T) {
 			fr.setVal(x, app("/", a.T, b.T)) // exact
+			return
+		}
+		if _, lit := parseLit(strings.TrimSuffix(b.T, ".0")); !lit {
+			// IEEE division by zero yields Inf/NaN, not a panic: the real-arithmetic model
+			// leaves the result unconstrained in that case
+			q := fr.rounded(app("/", a.T, ite(eq(b.T, "0.0"), "1.0", b.T)), "fdiv")
+			any := u.fresh("fdiv_by_zero", "Real")
+			fr.setVal(x, ite(eq(b.T, "0.0"), any, q))
 			return
 		}
 		fr.setVal(x, fr.rounded(app("/", a.T, b.T), "fdiv"))
@@ -91,6 +95,10 @@ func (fr *Frame) execIntToFloat(x *ssa.Convert, v Val, reach string) {
 	// exact when |v| <= 2^53
 	lim := "9007199254740992"
 	exact := and(app("<=", "(- "+lim+")", v.T), app("<=", v.T, lim))
+	if !u.nowrap {
+		fr.setVal(x, ite(exact, app("to_real", v.T), fr.rounded(app("to_real", v.T), "i2f")))
+		return
+	}
 	u.oblig("int-to-float", "integer converted to float64 is exactly representable (|x| <= 2^53)", implies(reach, exact), nil)
 	fr.setVal(x, app("to_real", v.T))
 }
@@ -345,6 +353,8 @@ func (fr *Frame) inline(callee *ssa.Function, ct *Contract, args []Val, reach st
 	u := fr.u
 	u.inlined[callee.String()] = true
 	sub := u.newFrame(callee, ct, fr)
+	sub.frameAllowed = fr.frameAllowed
+	sub.frameTargets = fr.frameTargets
 	sub.entryReach = reach
 	sub.entryHeap = h.clone()
 	for i, p := range callee.Params {
